@@ -9,6 +9,7 @@ import (
 	"path/filepath"
 	"strconv"
 	"strings"
+	"sync/atomic"
 	"syscall"
 	"time"
 
@@ -358,6 +359,37 @@ type scriptRun struct {
 	viols []violRec
 	// readerGone is set once the client's reader goroutine was found dead or busy-looping: later waits are not drawn out
 	readerGone string
+	// touched counts the notifications of the typed-members family handed to a registered handler
+	touched atomic.Int64
+}
+
+// touchHandler is the handler registered for the well-known notification methods in the typed-members family: it reads
+// the decoded params the way an application would (comma-ok assertions only: whatever type a member has is fine).
+func (x *scriptRun) touchHandler(n *mcp.JSONRPCNotification) error {
+	if n == nil {
+		return nil
+	}
+	x.touched.Add(1)
+	k := len(n.Method) + len(n.Params.Meta) + len(n.Params.AdditionalFields)
+	for _, key := range []string{"progressToken", "progress", "total", "message", "level", "logger", "data", "uri", "requestId", "reason"} {
+		switch v := n.Params.AdditionalFields[key].(type) {
+		case string:
+			k += len(v)
+		case float64:
+			k += int(v)
+		case map[string]interface{}:
+			k += len(v)
+		case []interface{}:
+			k += len(v)
+		}
+	}
+	if n.Params.Meta != nil {
+		if _, ok := n.Params.Meta["progressToken"]; ok {
+			k++
+		}
+	}
+	_ = k
+	return nil
 }
 
 type violRec struct{ symptom, what string }
@@ -547,6 +579,12 @@ func runScript(rep *vh.Reporter, sc *Script, tmp string, seed int64) {
 	if canNotify || ((kind == "streamable-sse" || kind == "streamable-json") && sc.WithHandler) {
 		cl.RegisterNotificationHandler("notifications/verif", handler)
 		x.obs["notification_handler_registered"] = true
+		if sc.Typed != "" {
+			// the typed-members family also sends the library's well-known notification methods: a handler for each
+			for _, m := range typedNotifMethods {
+				cl.RegisterNotificationHandler(m, x.touchHandler)
+			}
+		}
 	}
 	cl.SetRootsProvider(mcp.NewDefaultRootsProvider(mcp.Root{URI: "file:///c07", Name: "c07"}))
 	rep.Eval(1)
@@ -586,17 +624,35 @@ func runScript(rep *vh.Reporter, sc *Script, tmp string, seed int64) {
 		}
 	}
 	finish := func(outcome string) {
+		if sc.Typed != "" {
+			if n := x.touched.Load(); n > 0 {
+				x.obs["typed_notifications_handed_to_registered_handlers"] = n
+				rep.Count("typed_notifications_handed_to_registered_handlers", n)
+			}
+		}
 		if len(x.viols) > 0 {
 			outcome = "violation:" + strings.Join(x.emit(), "+")
 		} else {
 			rep.Distinct(fmt.Sprintf("%s|%s|%s|%s", kind, sc.Placement, sc.Class, outcome))
+			if sc.Typed != "" {
+				hk := "without-handler"
+				if x.obs["notification_handler_registered"] == true {
+					hk = "with-handler"
+				}
+				rep.Count("typed_scripts_conformed", 1)
+				rep.Count("typed_scripts_conformed_"+kind, 1)
+				rep.Count("typed_scripts_conformed_"+sc.Typed+"_"+kind, 1)
+				rep.Count("typed_scripts_conformed_"+hk, 1)
+				rep.SetAdd("typed_member_classes_conformed", sc.Class)
+				rep.SetAdd("typed_placements_conformed", kind+"/"+sc.Placement+"/"+hk)
+			}
 		}
 		rep.Count("outcome_"+strings.SplitN(outcome, ":", 2)[0], 1)
 		if os.Getenv("C07_TRACE") != "" {
 			b, _ := json.Marshal(x.obs)
 			fmt.Fprintf(os.Stderr, "TRACE %s => %s %s\n", sc.label(), outcome, b)
 		}
-		if sc.Idx%61 == 7 || (sc.Expect != "" && sc.Idx%53 == 11) {
+		if sc.Idx%61 == 7 || (sc.Expect != "" && sc.Idx%53 == 11) || (sc.Typed != "" && sc.Idx%59 == 3) {
 			rep.Sample(map[string]interface{}{"script": describeScript(sc), "outcome": outcome, "observed": x.obs})
 		}
 	}
@@ -721,6 +777,8 @@ func runScript(rep *vh.Reporter, sc *Script, tmp string, seed int64) {
 		} else {
 			x.viol("hangs", "the affected call did not return within its deadline + 3 s")
 		}
+	case sc.Typed != "":
+		probeOutcome = x.judgeTyped(po)
 	case sc.Expect != "":
 		probeOutcome = x.judgeSameID(po)
 	case po.Err != "":
@@ -847,6 +905,12 @@ func runScript(rep *vh.Reporter, sc *Script, tmp string, seed int64) {
 		}
 		if gotR {
 			rep.Count("later_roots_list_answered", 1)
+			if sc.Typed != "" {
+				rep.Count("typed_later_roots_list_answered_"+kind, 1)
+			}
+		}
+		if gotN && sc.Typed != "" {
+			rep.Count("typed_later_notifications_delivered_"+kind, 1)
 		}
 		if rounds > 1 && gotR {
 			rep.Count("later_frames_eaten_before_resync", int64(rounds-1))
@@ -874,6 +938,10 @@ func runScript(rep *vh.Reporter, sc *Script, tmp string, seed int64) {
 		switch {
 		case !transportDead && so.Returned && so.Marker == "valid":
 			rep.Count("second_calls_succeeded", 1)
+			if sc.Typed != "" {
+				rep.Count("typed_second_calls_succeeded", 1)
+				rep.Count("typed_second_calls_succeeded_"+kind, 1)
+			}
 		case transportDead:
 			if so.Returned && !so.AtDL {
 				rep.Count("second_calls_failed_promptly_on_closed_stream", 1)
@@ -913,6 +981,39 @@ func runScript(rep *vh.Reporter, sc *Script, tmp string, seed int64) {
 	// ---- 9. Close ----
 	doClose(!transportDead && (streamAlive || !streamKind))
 	finish(probeOutcome)
+}
+
+// judgeTyped judges the probe of a typed-members script (typed.go). The call returned (po.Returned). The statement:
+// "the affected call returns an error" - or, the fragment being harmless, its well-formed answer. A frame that bears
+// the call's id and has a result / error member IS an answer a lenient reader may build a result from (family result /
+// error); a notification or a server-issued request with its own id has nothing a result could be taken from.
+func (x *scriptRun) judgeTyped(po callOut) string {
+	sc, rep := x.sc, x.rep
+	rep.Count("typed_probes_judged", 1)
+	rep.Count("typed_probes_judged_"+sc.Typed, 1)
+	rep.Count("typed_probes_judged_"+sc.Kind, 1)
+	bears := sc.Typed == "result" || sc.Typed == "error"
+	switch {
+	case po.Err != "":
+		if po.AtDL && !sc.NoAnswer {
+			x.obs["script_fully_played"] = x.scriptPlayed()
+			x.viol("hangs", fmt.Sprintf("the script had ended the exchange, yet the affected call returned only at its %s context deadline", callDeadline))
+			return "error"
+		}
+		rep.Count("typed_probes_failed_with_an_error", 1)
+		rep.Count("typed_probes_failed_with_an_error_"+sc.Typed, 1)
+		return "error"
+	case po.Marker == "valid" && (sc.HasValid || bears):
+		rep.Count("typed_probes_returned_the_well_formed_answer", 1)
+		rep.Count("typed_probes_returned_the_well_formed_answer_"+sc.Typed, 1)
+		return "result-valid"
+	case bears:
+		rep.Count("typed_probes_read_the_mistyped_answer_leniently", 1)
+		rep.Count("lenient_result_from_odd_answer", 1)
+		return "result-lenient"
+	}
+	x.viol("result-from-garbage", fmt.Sprintf("the only frames next to the call's well-formed answer were %s frames without the call's id (nothing a result could be taken from), yet the call returned success with %q instead of an error or the content of its well-formed answer", sc.Typed, po.Marker))
+	return "result-" + strings.SplitN(po.Marker, ":", 2)[0]
 }
 
 // judgeSameID judges the probe of a same-id script (sameid.go): a frame of the wrong kind that bears the id of the
